@@ -38,11 +38,11 @@ EXHAUSTIVE_SCOPE = {'quick': 'histories of length <= 2 over the 9-operation redu
                     'thorough': 'histories of length <= 3 over the reduced alphabet; random part sampled'}
 FLOORS = {'quick': {'evaluations': 650, 'distinct_nontrivial': 250},
           'thorough': {'evaluations': 5000, 'distinct_nontrivial': 2000}}
-ASSUMPTIONS = ['foreign files never reuse a saved field name (glob order would decide); empty-string and '
+ASSUMPTIONS = ['foreign .tsv files never reuse a saved field name (glob order would decide); foreign .csv files may: CSV files are read first, so cluster_<field>.tsv overrides them unless the saved mapping is empty; empty-string and '
                'numeric-looking string values are not generated (the TSV layer cannot represent them)',
                'no operation other than reload is applied to a closed model']
 NSHARDS = 16
-FIELDS = ['group', 'quality', 'my note']
+FIELDS = ['group', 'quality', 'my note', 'ks.label', 'ks.contam']       # (dotted names sharing a stem)
 STRS = ['good', 'mua', 'needs review', 'a,b', 'tab\there', 'say "hi"', "it's", 'é', ' lead', 'trail ', ' both ']
 REDUCED = [('clusters', 1), ('clusters', 2), ('meta', 'group', 1), ('meta', 'group', 2), ('meta', 'quality', 3),
            ('foreign', 'valid_tsv'), ('foreign', 'garbage'), ('subset', 3, 2, 1.0), ('close',)]
@@ -68,6 +68,13 @@ def run_shard(desc, ctx):
         fam.append([['meta', f, 11], ['reload'], ['meta', f, 12], ['meta_back', f]])
         fam.append([['meta', f, 13], ['reload'], ['meta', f, 14], ['clusters', 3], ['meta_back', f], ['close']])
     fam.append([['clusters', 5], ['reload'], ['clusters', 6], ['clusters_back']])
+    fam.append([['meta', 'ks.label', 21], ['meta', 'ks.contam', 22], ['reload'], ['meta', 'ks.label', 23]])
+    fam.append([['meta', 'ks.contam', 24], ['reload'], ['meta', 'ks.label', 25], ['meta', 'group', 26]])
+    for fk in ('csv_same_field_late', 'csv_same_field_early'):
+        fld = 'quality' if fk.endswith('late') else 'my note'
+        fam.append([['foreign', fk], ['reload'], ['meta', fld, 31], ['reload'], ['meta', fld, 32]])
+        fam.append([['meta', fld, 33], ['foreign', fk], ['reload'], ['foreign', fk]])
+    fam.append([['one_template'], ['subset', 3, 2, 1.0], ['reload'], ['subset', 2, 2, 2.0]])
     fam.append([['clusters', 7], ['meta', 'group', 15], ['reload'], ['clusters', 8], ['meta', 'group', 16], ['clusters_back'], ['meta_back', 'group']])
     for j, ops in enumerate(fam):
         for rep in range(2):
@@ -96,10 +103,10 @@ def rand_ops(rng):
         if k <= 1:
             ops.append(['clusters', int(rng.integers(0, 1 << 30))])
         elif k <= 4:
-            ops.append(['meta', FIELDS[int(rng.integers(0, 3))], int(rng.integers(0, 1 << 30))])
+            ops.append(['meta', FIELDS[int(rng.integers(0, len(FIELDS)))], int(rng.integers(0, 1 << 30))])
         elif k <= 6:
             ops.append(['foreign', ['valid_tsv', 'valid_csv', 'empty', 'header_only', 'garbage', 'ragged', 'no_cluster_id',
-                                    'cluster_info'][int(rng.integers(0, 8))]])
+                                    'cluster_info', 'csv_same_field_late', 'csv_same_field_early'][int(rng.integers(0, 10))]])
         elif k == 7:
             ops.append(['subset', int(rng.integers(1, 6)), int(rng.integers(1, 4)), [1.0, 1, 2.5][int(rng.integers(0, 3))]])
         elif k == 8:
@@ -116,6 +123,10 @@ FOREIGN = {
     'header_only': ('cluster_hdr.tsv', 'cluster_id\thdr\n', {}),
     'garbage': ('cluster_bin.csv', None, {}),
     'ragged': ('cluster_ragged.tsv', 'cluster_id\trag\textra\n0\t1\n1\t2\t3\t4\n', {'rag': {0: 1, 1: 2}, 'extra': {1: 3}}),
+    # CSV files are read before TSV files: a column named like a saved field is overridden by cluster_<field>.tsv,
+    # whatever the file is called; without such a TSV the CSV column is the field
+    'csv_same_field_late': ('manual_labels.csv', 'cluster_id,quality,other9\n0,CSV,1\n1,CSV,2\n', {'quality': {0: 'CSV', 1: 'CSV'}, 'other9': {0: 1, 1: 2}}),
+    'csv_same_field_early': ('a_first.csv', 'cluster_id,my note,other8\n0,CSV,5\n2,CSV,6\n', {'my note': {0: 'CSV', 2: 'CSV'}, 'other8': {0: 5, 2: 6}}),
     'no_cluster_id': ('other.csv', 'id,thing\n0,1\n1,2\n', {}),
     'cluster_info': ('cluster_info.tsv', 'cluster_id\tgroup\tquality\n0\tINFO\t999\n1\tINFO\t999\n', {}),
 }
@@ -140,7 +151,15 @@ def _run(case, ctx, d):
                 dtype_times=['uint64', 'int64'][int(rng.integers(0, 2))])
     if rng.random() < 0.15 and opts['clusters'] != 'absent':
         opts['dtype_ids'] = 'uint16'          # narrow on-disk id type; saved ids may exceed its range
+    one_template = bool(case['ops']) and list(case['ops'][0]) == ['one_template']
+    if one_template:
+        opts.update(rate=0.05, n_samples=int(rng.integers(100, 160)), ns=int(rng.integers(12, 40)), clusters='same')   # >= 4 chunks of 30 samples
     spec = random_spec(rng, **opts)
+    if one_template:
+        # every spike belongs to one template, the other templates are unused
+        spec.spike_templates[:] = int(rng.integers(0, spec.n_templates))
+        spec.spike_clusters = spec.spike_templates.copy()
+        case = dict(case, ops=[o for o in case['ops'][1:]])
     wide_ids = opts.get('dtype_ids') == 'uint16'
     ops = case['ops'] if case['ops'] is not None else rand_ops(rng)
     ops = [list(o) for o in ops] + [['reload']]
@@ -271,12 +290,17 @@ def _compare(ctx, desc, f0, spec, ref, m, A, history):
     if dd:
         V('templates_or_times_changed', dd)
     md = m.metadata
+    csv_fields = set(f_ for fn_, e_ in ref['foreign'].items() if fn_.endswith('.csv') for f_ in e_)
     for field, mapping in ref['fields'].items():
+        if not mapping and field in csv_fields:
+            continue            # an empty saved mapping defines no value: the CSV column stands (judged below)
         got = md.get(field, {})
         if set(got) != set(mapping) or not all(_eq_val(got[c], v) for c, v in mapping.items()):
             V('metadata_not_last_saved', 'metadata[%r] = %r, last saved %r' % (field, got, mapping), field='saved')
     for fn, exp in ref['foreign'].items():
         for field, mapping in exp.items():
+            if ref['fields'].get(field) and fn.endswith('.csv'):
+                continue           # overridden by the saved cluster_<field>.tsv (judged above)
             got = md.get(field, {})
             if set(got) != set(mapping) or not all(_eq_val(got[c], v) for c, v in mapping.items()):
                 V('foreign_metadata_lost', 'metadata[%r] = %r, file %s holds %r' % (field, got, fn, mapping), field='foreign')
